@@ -38,8 +38,34 @@ def tla_set(xs):
     return "{" + ", ".join('"%s"' % x for x in xs) + "}"
 
 
+def prep_cfg(ctx, base, name, sub):
+    """write spec-dir cfg <name> = <base> with `K = v` lines replaced (thread-safe alternative to ctx.tlc(subst=))"""
+    d = ctx._specdir()
+    txt = open(os.path.join(d, base)).read()
+    sub = dict(sub)
+    if "INVARIANT" in sub:
+        txt = txt.replace("INVARIANT InvGet", "INVARIANT " + sub.pop("INVARIANT"))
+    for k, v in sub.items():
+        txt, n = re.subn(r"(?m)^(\s*)%s\s*=[^\n]*$" % re.escape(k), lambda m: "%s%s = %s" % (m.group(1), k, v), txt)
+        if n == 0:
+            raise vlib.Infra("cfg %s has no constant %s" % (base, k))
+    open(os.path.join(d, name), "w").write(txt)
+    return name
+
+
+def account_mc(ctx, module, cfg, r):
+    ctx.states += r.distinct
+    ctx.transitions += r.generated
+    ctx.mc_runs.append({"module": module, "cfg": cfg, "outcome": r.outcome, "distinct": r.distinct, "generated": r.generated,
+                        "depth": r.depth, "wall_s": round(r.wall, 1), "mode": "bfs"})
+    ctx.log("MC %s/%s: %s, %d distinct / %d generated, depth %d, %.1fs" % (module, cfg, r.outcome, r.distinct, r.generated, r.depth, r.wall))
+    if not r.ok():
+        raise vlib.Infra("model check %s/%s did not pass (%s %s): the design-level spec must satisfy the property\n%s"
+                         % (module, cfg, r.outcome, r.violated, r.cex or r.output[-3000:]))
+
+
 # ------------------------------------------------------------------ schedule generation
-def witness_schedules(ctx, open_tags):
+def witness_jobs(ctx, open_tags):
     """Shortest counterexamples of the model of the code, one per (open deviation's invariant, level, persistor)."""
     jobs = []
     if T_PART in open_tags:
@@ -52,45 +78,33 @@ def witness_schedules(ctx, open_tags):
         for p in ("mem", "fs"):
             jobs.append(("panic-" + p, T_PANIC, {"INVARIANT": "InvNoPanic", "Level": '"cache"', "Persistors": '{"%s"}' % p, "Threads": "{t1}", "Keys": '{"k1"}',
                                                   "LimitKind": '"size"', "LimitN": "1"}))
-    d = ctx._specdir()
-    base = open(os.path.join(d, "Cache.Witness.cfg")).read()
-    prepared = []
-    for name, tag, sub in jobs:
-        txt = base
-        sub = dict(sub, Deviations=tla_set(sorted(open_tags)))   # the model of the code
-        txt = txt.replace("INVARIANT InvGet", "INVARIANT " + sub.pop("INVARIANT"))
-        for k, v in sub.items():
-            txt = re.sub(r"(?m)^(\s*)%s\s*=[^\n]*$" % k, lambda m: "%s%s = %s" % (m.group(1), k, v), txt)
-        cfg = "wit-%s.cfg" % name
-        open(os.path.join(d, cfg), "w").write(txt)
-        prepared.append((name, tag, cfg, sub))
-
-    def one(job):
-        name, tag, cfg, sub = job
-        dump = ctx.path("wit-%s.json" % name)
-        r = ctx.tlc("CacheWit", cfg, workers=2, timeout=600, extra=["-dumpTrace", "json", dump], count_mc=False)
-        return job, r, dump
-
     out = []
-    with ThreadPoolExecutor(max_workers=3) as ex:
-        for (name, tag, cfg, sub), r, dump in ex.map(one, prepared):
-            if r.outcome != "invariant" or not os.path.exists(dump):
-                raise vlib.Infra("witness search %s: the model of the code with %s does not break the property (%s)\n%s"
-                                 % (name, tag, r.outcome, r.output[-1500:]))
-            states = json.load(open(dump))["counterexample"]["state"]
-            s0 = states[0][1]["S"]
-            sched = [st[1]["last"] for st in states[1:]]
-            init = sorted(k for k, v in s0["inner"].items() if v)
-            level = "part" if sched[0]["kind"].startswith("p") else "cache"
-            out.append({"witness": name, "tag": tag, "inv": r.violated, "level": level, "pers": s0["cfg"]["pers"],
-                        "lk": s0["cfg"]["lk"], "ln": s0["cfg"]["ln"], "init": init, "sched": sched})
-            ctx.log("witness %s: %s violated in the model of the code after %d steps (%d states)" % (name, r.violated, len(sched), r.distinct))
+    for name, tag, sub in jobs:
+        cfg = prep_cfg(ctx, "Cache.Witness.cfg", "wit-%s.cfg" % name, dict(sub, Deviations=tla_set(sorted(open_tags))))
+        out.append((name, tag, cfg))
     return out
 
 
+def run_witness(ctx, job):
+    name, tag, cfg = job
+    dump = ctx.path("wit-%s.json" % name)
+    r = ctx.tlc("CacheWit", cfg, workers=2, timeout=900, extra=["-dumpTrace", "json", dump], count_mc=False)
+    if r.outcome != "invariant" or not os.path.exists(dump):
+        raise vlib.Infra("witness search %s: the model of the code with %s does not break the property (%s)\n%s"
+                         % (name, tag, r.outcome, r.output[-1500:]))
+    states = json.load(open(dump))["counterexample"]["state"]
+    s0 = states[0][1]["S"]
+    sched = [st[1]["last"] for st in states[1:]]
+    init = sorted(k for k, v in s0["inner"].items() if v)
+    level = "part" if sched[0]["kind"].startswith("p") else "cache"
+    ctx.log("witness %s: %s violated in the model of the code after %d steps (%d states)" % (name, r.violated, len(sched), r.distinct))
+    return {"witness": name, "tag": tag, "inv": r.violated, "level": level, "pers": s0["cfg"]["pers"],
+            "lk": s0["cfg"]["lk"], "ln": s0["cfg"]["ln"], "init": init, "sched": sched}
+
+
 def random_schedules(ctx, n, devs):
-    r = ctx.tlc("CacheGen", "Cache.Gen.cfg", workers=1, simulate="num=%d" % n, depth=80, seed=ctx.seed, timeout=900,
-                count_mc=False, subst={"Deviations": devs})
+    cfg = prep_cfg(ctx, "Cache.Gen.cfg", "gen-walks.cfg", {"Deviations": devs})
+    r = ctx.tlc("CacheGen", cfg, workers=1, simulate="num=%d" % n, depth=80, seed=ctx.seed, timeout=900, count_mc=False)
     seen, out = set(), []
     for p in r.printed:
         if isinstance(p, dict) and "sched" in p:
@@ -116,13 +130,11 @@ def split_rounds(lines):
 
 
 def tv_forced(ctx, path, devs):
-    r = ctx.tlc("CacheTrace", "Cache.Trace.cfg", workers=1, timeout=1800, env={"TRACE_FILE": path}, count_mc=False,
-                subst={"Deviations": devs})
+    cfg = prep_cfg(ctx, "Cache.Trace.cfg", "tv-%s.cfg" % os.path.basename(path), {"Deviations": devs})
+    r = ctx.tlc("CacheTrace", cfg, workers=1, timeout=1800, env={"TRACE_FILE": path}, count_mc=False)
     if r.outcome != "ok":
         raise vlib.Infra("forced-schedule trace validation did not run to completion: %s %s\n%s"
                          % (r.outcome, r.violated, (r.cex or r.output[-3000:])))
-    ctx.states += r.distinct
-    ctx.transitions += r.generated
     accepted = set(p["round"] for p in r.printed if isinstance(p, dict) and p.get("verdict") == "accepted")
     flagged = {}
     for p in r.printed:
@@ -188,12 +200,10 @@ def project(lines):
 
 
 def tv_lin(ctx, path, devs):
-    r = ctx.tlc("CacheLinTrace", "Cache.LinTrace.cfg", workers=ctx.pick(2, 4), timeout=3000, env={"TRACE_FILE": path},
-                count_mc=False, subst={"Deviations": devs})
+    cfg = prep_cfg(ctx, "Cache.LinTrace.cfg", "tvl-%s.cfg" % os.path.basename(path), {"Deviations": devs})
+    r = ctx.tlc("CacheLinTrace", cfg, workers=ctx.pick(2, 4), timeout=3000, env={"TRACE_FILE": path}, count_mc=False)
     if r.outcome != "ok":
         raise vlib.Infra("linearisation search did not run to completion: %s %s\n%s" % (r.outcome, r.violated, (r.cex or r.output[-3000:])))
-    ctx.states += r.distinct
-    ctx.transitions += r.generated
     best = {}
     for p in r.printed:
         if isinstance(p, dict) and p.get("verdict") == "accepted":
@@ -233,7 +243,11 @@ def parse_runtime_output(out):
         for sec in re.split(r"\n\s*\n", blk):
             if re.match(r"\s*(Previous )?(read|write|atomic \w+) at ", sec, re.I):
                 fr = frames_of(sec, True)
-                accs.append(fr[0] if fr else {"pkg": "?", "fn": "?"})
+                if fr:
+                    accs.append(fr[0])
+                else:  # access made by the caller (harness/std library), e.g. reading the bytes returned by Get
+                    fns = [x for x in re.findall(r"(?m)^\s+(\S+)\(\)\s*$", sec) if not x.startswith("runtime.")]
+                    accs.append({"pkg": "client", "fn": fns[0] if fns else "?"})
         if len(accs) >= 2:
             events.append({"t": "race", "a": accs[0], "b": accs[1]})
         else:
@@ -269,25 +283,48 @@ def run_stress(ctx, drv, cfg, name, race=False, retries=2):
     return [], seen, p
 
 
+def stress_plan(ctx):
+    combos = [("cache", "mem", "keys", 2), ("cache", "fs", "size", 6), ("part", "mem", "size", 6), ("part", "fs", "keys", 2)]
+    if not ctx.quick():
+        combos += [("cache", "mem", "size", 6), ("cache", "fs", "keys", 2), ("part", "mem", "keys", 2), ("part", "fs", "size", 6),
+                   ("cache", "fs", "keys", 1), ("part", "mem", "keys", 1)]
+    runs, rid = [], 1000
+    for race in (False, True):
+        for (level, pers, lk, ln) in combos:
+            cfg = {"level": level, "pers": pers, "lk": lk, "ln": ln, "rounds": ctx.pick(1 if race else 2, 4 if race else 8),
+                   "g": 8, "ops": ctx.pick(15 if race else 20, 40), "keys": 3, "base": rid}
+            runs.append((race, cfg))
+            rid += cfg["rounds"] + 1
+    return combos, runs, rid
+
+
 def run(ctx):
     open_tags = set(ctx.open_tags("C19"))
     devs = ctx.deviations("D-C19")
-    # ---------------------------------------------------------------- 1. MC of the intended design
-    mcw = ctx.pick(4, 8)
-    ctx.mc("Cache", "Cache.MC.cfg", workers=mcw, timeout=1500, subst={"Level": '"cache"'})
-    ctx.mc("Cache", "Cache.MC.cfg", workers=mcw, timeout=1500, subst={"Level": '"part"'})
-    ctx.mc("Cache", "Cache.MC.cfg", workers=mcw, timeout=1500,
-           subst={"Level": '"cache"', "Threads": "{t1, t2}", "LimitKind": '"size"', "LimitN": "1", "Persistors": '{"mem", "fs"}'})
+    ctx._specdir()
+    pool = ThreadPoolExecutor(max_workers=ctx.pick(6, 8))
+    # ---------------------------------------------------------------- 1. stage A (parallel): MC of the intended design,
+    # witness searches and random walks on the model of the code, builds
+    mcw = ctx.pick(2, 4)
+    mcs = [("cache-keys1", {"Level": '"cache"'}), ("part-keys1", {"Level": '"part"'}),
+           ("cache-size1", {"Level": '"cache"', "Threads": "{t1, t2}", "LimitKind": '"size"', "LimitN": "1", "Persistors": '{"mem", "fs"}'})]
     if not ctx.quick():
-        ctx.mc("Cache", "Cache.MC.cfg", workers=mcw, timeout=2400,
-               subst={"Level": '"cache"', "LimitKind": '"size"', "LimitN": "3", "Persistors": '{"mem", "fs"}'})
-        ctx.mc("Cache", "Cache.MC.cfg", workers=mcw, timeout=2400, subst={"Level": '"part"', "LimitKind": '"size"', "LimitN": "3"})
-        ctx.mc("Cache", "Cache.MC.cfg", workers=mcw, timeout=2400, subst={"Level": '"part"', "Threads": "{t1, t2}", "MaxOps": "2"})
-        ctx.mc("Cache", "Cache.MC.cfg", workers=mcw, timeout=2400, subst={"Level": '"cache"', "Threads": "{t1, t2}", "MaxOps": "2"})
-
-    # ---------------------------------------------------------------- 2. schedules from the model of the code
-    wit = witness_schedules(ctx, open_tags)
-    rnd = random_schedules(ctx, ctx.pick(150, 1500), devs)
+        mcs += [("cache-size3", {"Level": '"cache"', "LimitKind": '"size"', "LimitN": "3", "Persistors": '{"mem", "fs"}'}),
+                ("part-size3", {"Level": '"part"', "LimitKind": '"size"', "LimitN": "3"}),
+                ("part-2x2", {"Level": '"part"', "Threads": "{t1, t2}", "MaxOps": "2"}),
+                ("cache-2x2", {"Level": '"cache"', "Threads": "{t1, t2}", "MaxOps": "2"}),
+                ("part-keys2", {"Level": '"part"', "LimitN": "2"})]
+    mc_f = []
+    for name, sub in mcs:
+        cfg = prep_cfg(ctx, "Cache.MC.cfg", "mc-%s.cfg" % name, sub)
+        mc_f.append((cfg, pool.submit(ctx.tlc, "Cache", cfg, workers=mcw, timeout=3000, count_mc=False)))
+    wit_f = [pool.submit(run_witness, ctx, j) for j in witness_jobs(ctx, open_tags)]
+    rnd_f = pool.submit(random_schedules, ctx, ctx.pick(120, 1500), devs)
+    drv_f = pool.submit(ctx.gobuild, "cache")
+    drv = drv_f.result()
+    drv_race_f = pool.submit(ctx.gobuild, "cache", True)   # after the plain build (shares the scratch harness copy)
+    wit = [f.result() for f in wit_f]
+    rnd = rnd_f.result()
     rounds = []
     for w in wit + rnd:
         w = dict(w)
@@ -296,8 +333,7 @@ def run(ctx):
     vlib.write_ndjson(ctx.path("rounds.ndjson"), rounds)
     ctx.sample({"forced_round": {k: rounds[0][k] for k in ("level", "pers", "lk", "ln", "init")}, "sched": rounds[0]["sched"][:6]})
 
-    # ---------------------------------------------------------------- 3. force them on the real code, TV
-    drv = ctx.gobuild("cache")
+    # ---------------------------------------------------------------- 2. force the schedules on the real code; stress runs
     p = ctx.run([drv, "forced", ctx.path("rounds.ndjson"), ctx.path("forced.ndjson"), ctx.path("work-forced")], timeout=1800)
     stats = json.loads(p.stdout.strip().splitlines()[-1])
     ctx.log("forced:", stats)
@@ -307,23 +343,106 @@ def run(ctx):
         raise vlib.Infra("driver executed %d of %d rounds" % (len(fr), len(rounds)))
     if stats["infeasible"] + stats["diverged"] > max(3, len(rounds) // 10):
         raise vlib.Infra("too many infeasible/diverged schedules: %s" % stats)
-    accepted, flagged, r = tv_forced(ctx, ctx.path("forced.ndjson"), devs)
+    tvf_f = pool.submit(tv_forced, ctx, ctx.path("forced.ndjson"), devs)
+    # binding self-test 1 input: a corrupted observation must be rejected
+    victim = None
+    for rl in fr:
+        for i, ln in enumerate(rl):
+            if ln["t"] == "step" and ln["at"] == "done" and ln["st"] == "hit" and ln["chunks"]:
+                victim = json.loads(json.dumps(rl))
+                victim[i]["chunks"][0]["v"] = "zz"
+                break
+        if victim:
+            break
+    if not victim:
+        raise vlib.Infra("no hit with content among the forced rounds")
+    vlib.write_ndjson(ctx.path("selftest1.ndjson"), victim)
+    st1_f = pool.submit(tv_forced, ctx, ctx.path("selftest1.ndjson"), devs)
+
+    combos, runs, rid = stress_plan(ctx)
+    drv_race = drv_race_f.result()
+
+    def do(job):
+        race, cfg = job
+        name = "%s-%s-%s%d%s" % (cfg["level"], cfg["pers"], cfg["lk"], cfg["ln"], "-race" if race else "")
+        return job, name, run_stress(ctx, drv_race if race else drv, cfg, name, race)
+    results = list(ThreadPoolExecutor(max_workers=ctx.pick(3, 4)).map(do, runs))
+    all_lines, calls, race_events = [], 0, 0
+    for (race, cfg), name, (hist, events, p) in results:
+        for e in events:
+            if e["t"] == "race" and e["a"]["pkg"] == "client" and e["b"]["pkg"] == "client":
+                raise vlib.Infra("data race inside the harness itself: %s\n%s" % (json.dumps(e), p.stdout[-3000:]))
+        if not hist:
+            hist = [{"t": "reset", "round": cfg["base"], "level": cfg["level"], "pers": cfg["pers"], "lk": cfg["lk"], "ln": cfg["ln"]}]
+        all_lines += hist
+        calls += sum(1 for e in hist if e["t"] == "inv")
+        if events:
+            # runtime observations of this process form a round of their own
+            all_lines.append({"t": "reset", "round": cfg["base"] + cfg["rounds"], "level": cfg["level"], "pers": cfg["pers"],
+                              "lk": cfg["lk"], "ln": cfg["ln"], "what": "runtime:" + name})
+            all_lines += events
+            race_events += len(events)
+    # probes: minimal unsynchronised Set pair under -race (both persistors), fill-on-miss of an oversize part
+    for pers in ("mem", "fs"):
+        p = ctx.run([drv_race, "raceprobe", pers, ctx.path("work-probe-" + pers)], timeout=300, check=False, env={"GORACE": "halt_on_error=0"})
+        ev = parse_runtime_output(p.stdout)
+        if p.returncode not in (0, 66) and not ev:
+            raise vlib.Infra("raceprobe %s failed\n%s" % (pers, p.stdout[-2000:]))
+        all_lines.append({"t": "reset", "round": rid, "level": "cache", "pers": pers, "lk": "keys", "ln": 4, "what": "raceprobe"})
+        all_lines += ev
+        race_events += len(ev)
+        rid += 1
+        p = ctx.run([drv, "panicprobe", pers, ctx.path("work-pprobe-" + pers)], timeout=300, check=False)
+        ev = parse_runtime_output(p.stdout)
+        if p.returncode != 0 and not ev:
+            raise vlib.Infra("panicprobe %s failed\n%s" % (pers, p.stdout[-2000:]))
+        all_lines.append({"t": "reset", "round": rid, "level": "part", "pers": pers, "lk": "size", "ln": 1, "what": "panicprobe"})
+        all_lines += ev
+        race_events += len(ev)
+        rid += 1
+    vlib.write_ndjson(ctx.path("stress-all.ndjson"), all_lines)
+    proj, index = project(all_lines)
+    vlib.write_ndjson(ctx.path("stress-proj.ndjson"), proj)
+    pr = split_rounds(proj)
+    tvl_f = pool.submit(tv_lin, ctx, ctx.path("stress-proj.ndjson"), devs)
+    # binding self-test 2 input: foreign bytes in a Get result / an unexplained race must be rejected
+    victim = None
+    for rl in pr:
+        for i, ln in enumerate(rl):
+            if ln["t"] == "ret" and ln["st"] == "hit" and ln["chunks"]:
+                victim = json.loads(json.dumps(rl))
+                victim[i]["chunks"][0]["k"] = "k9"
+                break
+        if victim:
+            break
+    if not victim:
+        raise vlib.Infra("no hit with content in the stress histories")
+    victim.append({"t": "reset", "round": "selftest/race", "level": "cache", "pers": "mem", "lk": "keys", "ln": 2})
+    victim.append({"t": "race", "a": {"pkg": "cache", "fn": "Set"}, "b": {"pkg": "cache/evictionpolicy/lfu", "fn": "TrackGet"}})
+    vlib.write_ndjson(ctx.path("selftest2.ndjson"), victim)
+    st2_f = pool.submit(tv_lin, ctx, ctx.path("selftest2.ndjson"), devs)
+
+    # ---------------------------------------------------------------- 3. verdicts
+    for cfg, f in mc_f:
+        account_mc(ctx, "Cache", cfg, f.result())
+    accepted, flagged, r = tvf_f.result()
+    ctx.states += r.distinct
+    ctx.transitions += r.generated
     ctx.log("TV forced: %d/%d rounds explained by Cache.tla, %d operations break the property (%d states, %.1fs)"
             % (len(accepted), len(fr), len(flagged), r.distinct, r.wall))
     by_id = {rl[0]["round"]: rl for rl in fr}
-    for rid, rl in by_id.items():
-        if rid not in accepted:
-            rp = ctx.path("replay-forced-%s.ndjson" % rid)
-            vlib.write_ndjson(rp, [rounds[rid - 1]] + rl)
-            single = ctx.path("single.ndjson")
+    for rid_, rl in by_id.items():
+        if rid_ not in accepted:
+            rp = ctx.path("replay-forced-%s.ndjson" % rid_)
+            vlib.write_ndjson(rp, [rounds[rid_ - 1]] + rl)
+            single = ctx.path("single-%s.ndjson" % rid_)
             vlib.write_ndjson(single, rl)
-            hw = ctx.tlc("CacheTrace", "Cache.Trace.cfg", workers=1, timeout=600, env={"TRACE_FILE": single}, count_mc=False,
-                         subst={"Deviations": devs}, extra=[])
-            # deepest line explained = BFS depth
-            stuck = rl[min(hw.depth, len(rl) - 1)] if hw.depth else rl[1]
+            hw = ctx.tlc("CacheTrace", prep_cfg(ctx, "Cache.Trace.cfg", "tv-single.cfg", {"Deviations": devs}), workers=1, timeout=600,
+                         env={"TRACE_FILE": single}, count_mc=False)
+            stuck = rl[min(max(hw.depth, 1), len(rl) - 1)]   # BFS depth = 1 + number of lines explained
             ctx.violation(rp, "forced schedule %d (%s/%s/%s%d): the real code's step is not a behaviour of Cache.tla "
                               "(model of the code with deviations %s); first unexplained observation: %s"
-                          % (rid, rl[0]["level"], rl[0]["pers"], rl[0]["lk"], rl[0]["ln"], devs, json.dumps(stuck)[:500]))
+                          % (rid_, rl[0]["level"], rl[0]["pers"], rl[0]["lk"], rl[0]["ln"], devs, json.dumps(stuck)[:500]))
     seen_tags = set()
     for f in flagged:
         witness = {"round": f["round"], "config": {k: by_id[f["round"]][0][k] for k in ("level", "pers", "lk", "ln", "init")},
@@ -357,85 +476,16 @@ def run(ctx):
     if missing:
         raise vlib.Infra("spec steps never exercised on the real code: %s" % missing)
     ctx.extra["forced"] = dict(stats, rounds_explained=len(accepted), step_coverage=cov, witnesses=[w["witness"] for w in wit])
-
-    # binding self-test 1: a corrupted observation must be rejected
-    victim = None
-    for rl in fr:
-        for i, ln in enumerate(rl):
-            if ln["t"] == "step" and ln["at"] == "done" and ln["st"] == "hit" and ln["chunks"]:
-                victim = json.loads(json.dumps(rl))
-                victim[i]["chunks"][0]["v"] = "zz"
-                break
-        if victim:
-            break
-    if not victim:
-        raise vlib.Infra("no hit with content among the forced rounds")
-    vlib.write_ndjson(ctx.path("selftest1.ndjson"), victim)
-    acc1, _, _ = tv_forced(ctx, ctx.path("selftest1.ndjson"), devs)
+    acc1, _, _ = st1_f.result()
     if acc1:
         raise vlib.Infra("binding self-test failed: a corrupted Get result was accepted by CacheTrace")
 
-    # ---------------------------------------------------------------- 4. stress (+ race detector), linearisation TV
-    combos = [("cache", "mem", "keys", 2), ("cache", "fs", "size", 6), ("part", "mem", "size", 6), ("part", "fs", "keys", 2)]
-    if not ctx.quick():
-        combos += [("cache", "mem", "size", 6), ("cache", "fs", "keys", 2), ("part", "mem", "keys", 2), ("part", "fs", "size", 6),
-                   ("cache", "fs", "keys", 1), ("part", "mem", "keys", 1)]
-    drv_race = ctx.gobuild("cache", race=True)
-    all_lines, rid, calls = [], 1000, 0
-    runs = []
-    for race in (False, True):
-        for (level, pers, lk, ln) in combos:
-            cfg = {"level": level, "pers": pers, "lk": lk, "ln": ln, "rounds": ctx.pick(1 if race else 2, 4 if race else 8),
-                   "g": 8, "ops": ctx.pick(15 if race else 20, 40), "keys": 3, "base": rid}
-            runs.append((race, cfg))
-            rid += cfg["rounds"] + 1
-    def do(job):
-        race, cfg = job
-        name = "%s-%s-%s%d%s" % (cfg["level"], cfg["pers"], cfg["lk"], cfg["ln"], "-race" if race else "")
-        return job, name, run_stress(ctx, drv_race if race else drv, cfg, name, race)
-    with ThreadPoolExecutor(max_workers=ctx.pick(3, 4)) as ex:
-        results = list(ex.map(do, runs))
-    race_events = 0
-    for (race, cfg), name, (hist, events, p) in results:
-        for e in events:
-            if any(s["pkg"].startswith("verifharness") for s in (e.get("a", {}), e.get("b", {}), e.get("site", {})) if s):
-                raise vlib.Infra("race/crash inside the harness itself: %s" % json.dumps(e))
-        if not hist:
-            hist = [{"t": "reset", "round": cfg["base"], "level": cfg["level"], "pers": cfg["pers"], "lk": cfg["lk"], "ln": cfg["ln"]}]
-        all_lines += hist
-        calls += sum(1 for e in hist if e["t"] == "inv")
-        if events:
-            # runtime observations of this process form a round of their own
-            all_lines.append({"t": "reset", "round": cfg["base"] + cfg["rounds"], "level": cfg["level"], "pers": cfg["pers"],
-                              "lk": cfg["lk"], "ln": cfg["ln"], "what": "runtime:" + name})
-            all_lines += events
-            race_events += len(events)
-    # probes: minimal unsynchronised Set pair under -race (both persistors), fill-on-miss of an oversize part
-    for pers in ("mem", "fs"):
-        p = ctx.run([drv_race, "raceprobe", pers, ctx.path("work-probe-" + pers)], timeout=300, check=False, env={"GORACE": "halt_on_error=0"})
-        ev = parse_runtime_output(p.stdout)
-        if p.returncode not in (0, 66) and not ev:
-            raise vlib.Infra("raceprobe %s failed\n%s" % (pers, p.stdout[-2000:]))
-        all_lines.append({"t": "reset", "round": rid, "level": "cache", "pers": pers, "lk": "keys", "ln": 4, "what": "raceprobe"})
-        all_lines += ev
-        race_events += len(ev)
-        rid += 1
-        p = ctx.run([drv, "panicprobe", pers, ctx.path("work-pprobe-" + pers)], timeout=300, check=False)
-        ev = parse_runtime_output(p.stdout)
-        if p.returncode != 0 and not ev:
-            raise vlib.Infra("panicprobe %s failed\n%s" % (pers, p.stdout[-2000:]))
-        all_lines.append({"t": "reset", "round": rid, "level": "part", "pers": pers, "lk": "size", "ln": 1, "what": "panicprobe"})
-        all_lines += ev
-        race_events += len(ev)
-        rid += 1
-    vlib.write_ndjson(ctx.path("stress-all.ndjson"), all_lines)
-    proj, index = project(all_lines)
-    vlib.write_ndjson(ctx.path("stress-proj.ndjson"), proj)
-    best, r = tv_lin(ctx, ctx.path("stress-proj.ndjson"), devs)
+    best, r = tvl_f.result()
+    ctx.states += r.distinct
+    ctx.transitions += r.generated
     minis = [ln["round"] for ln in proj if ln["t"] == "reset"]
     ctx.log("TV stress: %d calls, %d runtime events, %d/%d per-key histories linearisable under CacheLin.tla (%d states, %.1fs)"
             % (calls, race_events, len(best), len(minis), r.distinct, r.wall))
-    pr = split_rounds(proj)
     for rl in pr:
         m = rl[0]["round"]
         if m not in best:
@@ -443,7 +493,7 @@ def run(ctx):
             vlib.write_ndjson(rp, rl)
             rt = [e for e in rl if e["t"] in ("race", "crash")]
             if rt:
-                msg = "runtime event not explained by any open deviation: %s" % json.dumps(rt[0])[:600]
+                msg = "runtime events (race detector / crash) not explained by any open deviation, e.g.: %s" % json.dumps(rt[:3])[:900]
             else:
                 msg = ("concurrent history of round %s (%s persistor, level %s) has no linearisation under CacheLin.tla with "
                        "deviations %s" % (m, rl[0]["pers"], rl[0]["level"], devs))
@@ -459,25 +509,10 @@ def run(ctx):
     ctx.extra["stress"] = {"calls": calls, "runtime_events": race_events, "per_key_histories": len(minis),
                            "linearisable": len(best), "configs": ["%s/%s/%s%d" % c for c in combos]}
     ctx.sample({"stress_history": [e for e in proj if e["t"] != "reset"][:4]})
-
-    # binding self-test 2: foreign bytes in a Get result / an unexplained race must be rejected
-    victim = None
-    for rl in pr:
-        for i, ln in enumerate(rl):
-            if ln["t"] == "ret" and ln["st"] == "hit" and ln["chunks"]:
-                victim = json.loads(json.dumps(rl))
-                victim[i]["chunks"][0]["k"] = "k9"
-                break
-        if victim:
-            break
-    if not victim:
-        raise vlib.Infra("no hit with content in the stress histories")
-    victim.append({"t": "reset", "round": "selftest/race", "level": "cache", "pers": "fs", "lk": "keys", "ln": 2})
-    victim.append({"t": "race", "a": {"pkg": "cache", "fn": "Set"}, "b": {"pkg": "cache/evictionpolicy/lfu", "fn": "TrackGet"}})
-    vlib.write_ndjson(ctx.path("selftest2.ndjson"), victim)
-    b2, _ = tv_lin(ctx, ctx.path("selftest2.ndjson"), devs)
+    b2, _ = st2_f.result()
     if b2:
         raise vlib.Infra("binding self-test failed: corrupted history / unexplained race accepted by CacheLinTrace: %s" % b2)
+    pool.shutdown()
     ctx.extra["binding_selftest"] = "corrupted forced observation rejected; foreign chunk in a stress Get and an unlisted race rejected"
     ctx.extra["distinct_nontrivial"] = nt
     ctx.extra["findings_reproduced"] = sorted(seen_tags)
